@@ -832,6 +832,13 @@ func c11Barrier(r *verifh.Rng) verifh.Section {
 	return verifh.Section{Cfg: c11Cfg(kind, max, iv, p, gate, 0), Ops: ops}
 }
 
+func c11NonNeg(x int) int {
+	if x < 0 {
+		return 0
+	}
+	return x
+}
+
 func c11Gen(r *verifh.Rng) []verifh.Section {
 	var secs []verifh.Section
 	// scripted: hand-over window (batch taken by a producer, background busy) then Wait
@@ -955,7 +962,7 @@ func c11Gen(r *verifh.Rng) []verifh.Section {
 			case x < 70:
 				ops = append(ops, "tick")
 			case x < 77:
-				ops = append(ops, fmt.Sprintf("t+ %d", r.Pick(1, iv, 10*iv-1, 10*iv, 10*iv+1, 11*iv, 5*iv)))
+				ops = append(ops, fmt.Sprintf("t+ %d", c11NonNeg(r.Pick(1, iv, 10*iv-1, 10*iv, 10*iv+1, 11*iv, 5*iv))))
 			case x < 81:
 				// force the idle-quit path: more than 10 intervals, two ticks
 				ops = append(ops, fmt.Sprintf("t+ %d", 10*iv+1), "tick", "tick")
